@@ -147,11 +147,53 @@ pub fn from_utf8_or_bad<'a>(b: &'a [u8]) -> (r: Result<&'a str>)
 { core::str::from_utf8(b).map_err(|_| Error::DeserializeBadUtf8) }
 """ + "".join(devarint.spec_for(n, b) for n, b in devarint.WIDTHS)
 
+# ---- closing the loop at contract level: what the emit unit's postconditions say was WRITTEN is, by these lemmas, exactly what the
+# dekinds contracts say is SHOWN to the visitor - for every value, every length, every continuation of the stream.
+RT = """
+pub open spec fn zz(n: int) -> nat { if n >= 0 { (2 * n) as nat } else { (-2 * n - 1) as nat } }
+pub proof fn lemma_rt_zigzag(n: int) ensures unzz(zz(n)) == n {}
+""" + "".join("""
+// serialize_i%(b)d writes enc(zz(v)); deserialize_i%(b)d shows unzz(dec_u%(b)d(..)) - the same v, consuming exactly the encoding
+pub proof fn lemma_rt_i%(b)d(v: i%(b)d, rest: Seq<u8>)
+    ensures
+        zz(v as int) <= u%(b)d::MAX,
+        match dec_u%(b)d(enc(zz(v as int)) + rest) {
+            DecRes::Ok(u, used) => unzz(u as nat) as i%(b)d == v && used == enc(zz(v as int)).len(),
+            _ => false,
+        },   // @obl:C01.L.rt.i%(b)d
+{
+    lemma_rt_zigzag(v as int);
+    lemma_varint_roundtrip_u%(b)d(zz(v as int) as u%(b)d, rest);
+}
+""" % dict(b=b) for b in [16, 32, 64, 128]) + """
+// serialize_bytes / serialize_str write enc(len) ++ body; deserialize_bytes / deserialize_str show exactly that body and leave `rest`
+pub proof fn lemma_rt_len_prefixed(b: Seq<u8>, rest: Seq<u8>)
+    requires b.len() <= u64::MAX
+    ensures
+        match dec_u64(enc(b.len()) + b + rest) {
+            DecRes::Ok(n, used) => n as nat == b.len() && used + n <= (enc(b.len()) + b + rest).len()
+                && (enc(b.len()) + b + rest).subrange(used, used + n) == b
+                && (enc(b.len()) + b + rest).subrange(used + n, (enc(b.len()) + b + rest).len() as int) == rest,
+            _ => false,
+        },   // @obl:C01.L.rt.len_prefixed
+{
+    let s = enc(b.len()) + b + rest;
+    lemma_varint_roundtrip_u64(b.len() as u64, b + rest);
+    assert(s =~= enc(b.len()) + (b + rest));
+    let used = enc(b.len()).len() as int;
+    assert(s.subrange(used, used + b.len()) =~= b);
+    assert(s.subrange(used + b.len(), s.len() as int) =~= rest);
+}
+"""
+
 UNIT = dict(
     name="dekinds",
-    uses=["use core::marker::PhantomData;"],
+    uses=["use core::marker::PhantomData;", "use vstd::arithmetic::div_mod::*;"],
+    prelude=["varint.rs"],
     items=[
         dict(kind="raw", name="<spec>", obls=["spec:dekinds"], text=SPEC),
+        dict(kind="raw", name="<varint-roundtrip>", obls=["spec:devarint"], text="".join(devarint.roundtrip_lemmas(n, b) for n, b in devarint.WIDTHS)),
+        dict(kind="raw", name="<rt-lemmas>", obls=["C01.L.rt.len_prefixed"] + ["C01.L.rt.i%d" % b for b in [16, 32, 64, 128]], text=RT),
         dict(kind="enum", file="postcard/src/error.rs", name="Error"),
         dict(kind="struct", file=F, name="Deserializer", rewrites=[(r"(\s)flavor: F", r"\1pub flavor: F", 1, 1), (r"(\s)_plt:", r"\1pub _plt:", 1, 1)]),   # visibility only: the abstract Visitor contract speaks about d.flavor.rem()
     ] + [
